@@ -80,6 +80,31 @@ theorem raise_idsOK (c : BCfg) (s : St) (p : Batch) (h : IdsOK s) : IdsOK (raise
     (afterTake c s a acc sl).phase = s.phase := by
   unfold afterTake afterTakeV1 afterTakeV2; cases c.gen <;> simp
 
+@[simp] theorem v1Handoff_flags (s : St) :
+    (v1Handoff s).flushReq = s.flushReq ∧ (v1Handoff s).pauseReq = s.pauseReq ∧ (v1Handoff s).stopReq = s.stopReq ∧
+    (v1Handoff s).tickF = s.tickF ∧ (v1Handoff s).tickC = s.tickC ∧ (v1Handoff s).tickA = s.tickA ∧
+    (v1Handoff s).nextF = s.nextF ∧ (v1Handoff s).nextC = s.nextC ∧ (v1Handoff s).nextA = s.nextA := by
+  unfold v1Handoff; split <;> simp
+@[simp] theorem v1Handoff_counters (s : St) :
+    (v1Handoff s).cycles = s.cycles ∧ (v1Handoff s).flushTicksTaken = s.flushTicksTaken ∧
+    (v1Handoff s).flushCalls = s.flushCalls ∧ (v1Handoff s).pauses = s.pauses ∧
+    (v1Handoff s).effPauseCalls = s.effPauseCalls ∧ (v1Handoff s).audits = s.audits ∧
+    (v1Handoff s).shutdowns = s.shutdowns ∧ (v1Handoff s).giveMes = s.giveMes := by
+  unfold v1Handoff; split <;> simp
+@[simp] theorem afterTake_flags (c : BCfg) (s : St) (a : Nat) (acc : Acc) (sl : Bool) :
+    (afterTake c s a acc sl).flushReq = s.flushReq ∧ (afterTake c s a acc sl).pauseReq = s.pauseReq ∧
+    (afterTake c s a acc sl).stopReq = s.stopReq ∧ (afterTake c s a acc sl).tickF = s.tickF ∧
+    (afterTake c s a acc sl).tickC = s.tickC ∧ (afterTake c s a acc sl).tickA = s.tickA ∧
+    (afterTake c s a acc sl).nextF = s.nextF ∧ (afterTake c s a acc sl).nextC = s.nextC ∧
+    (afterTake c s a acc sl).nextA = s.nextA := by
+  unfold afterTake afterTakeV1 afterTakeV2; cases c.gen <;> simp
+@[simp] theorem afterTake_counters (c : BCfg) (s : St) (a : Nat) (acc : Acc) (sl : Bool) :
+    (afterTake c s a acc sl).cycles = s.cycles ∧ (afterTake c s a acc sl).flushTicksTaken = s.flushTicksTaken ∧
+    (afterTake c s a acc sl).flushCalls = s.flushCalls ∧ (afterTake c s a acc sl).pauses = s.pauses ∧
+    (afterTake c s a acc sl).effPauseCalls = s.effPauseCalls ∧ (afterTake c s a acc sl).audits = s.audits ∧
+    (afterTake c s a acc sl).shutdowns = s.shutdowns ∧ (afterTake c s a acc sl).giveMes = s.giveMes := by
+  unfold afterTake afterTakeV1 afterTakeV2; cases c.gen <;> simp
+
 theorem idsOK_congr {s s' : St} (hb : s'.batches = s.batches) (hn : s'.nextBatch = s.nextBatch) (h : IdsOK s) : IdsOK s' := by
   unfold IdsOK at *; rw [hb, hn]; exact h
 
@@ -430,5 +455,22 @@ theorem step_pendOK (c : BCfg) (s s' : St) (l : Label) (h : step c s l = some s'
       | exact hi
       | exact pendOK_congr rfl rfl rfl hi
       | exact pendOK_congr (by simp [markCbDone, markFinished, doAudit]) (by simp [markCbDone, markFinished, doAudit]) (by simp [markCbDone, markFinished, doAudit]) hi
+
+end GoBatcher
+
+namespace GoBatcher
+
+theorem ids_unique (l : List RBatch) (hnd : (l.map (·.id)).Nodup) (x z : RBatch) (hx : x ∈ l) (hz : z ∈ l)
+    (he : x.id = z.id) : x = z := by
+  induction l with
+  | nil => simp at hx
+  | cons y t ih =>
+    simp only [List.map_cons, List.nodup_cons] at hnd
+    simp only [List.mem_cons] at hx hz
+    rcases hx with hx | hx <;> rcases hz with hz | hz
+    · rw [hx, hz]
+    · exact absurd (List.mem_map.mpr ⟨z, hz, by rw [← he, hx]⟩) hnd.1
+    · exact absurd (List.mem_map.mpr ⟨x, hx, by rw [he, hz]⟩) hnd.1
+    · exact ih hnd.2 hx hz
 
 end GoBatcher
